@@ -6,6 +6,7 @@ import ConjureVerif.Props.C07
 import ConjureVerif.Props.C08
 import ConjureVerif.Props.C11
 import ConjureVerif.Props.C12
+import ConjureVerif.Props.C13
 import ConjureVerif.Props.C15
 import ConjureVerif.Props.C16
 import ConjureVerif.Props.C18
